@@ -18,6 +18,22 @@ CLAIMED = {
         "design_ref": "DESIGN.md section 3, C14",
         "technique": "TLA+ model checking (TLC) + spec-to-code replay + trace validation",
     },
+    "C15": {
+        "spec": "ModuleFile.tla, Trace_ModuleFile.tla",
+        "text": "TLC checks ModuleIntegrity, LaterLoadSucceeds, NeverRaises, RewriteWhenDue, ReuseOtherwise, RendersCurrent, "
+                "WriterExactlyWhenDue, PublishedIsCurrentGen exhaustively on ModuleFile.tla: 2-3 processes, one action per file-system "
+                "call of Template._compile_from_file/_compile_module_file, a Crash at every label (and midway through the write), "
+                "history steps between constructions. Real constructions run in child processes whose file-system calls are interposed; "
+                "the parent schedules them one call at a time and kills them before/after/midway the k-th call (every k for the single "
+                "writer, seeded for 1-8 concurrent writers); after every event the module path on disk is projected and the whole trace "
+                "is validated by Trace_ModuleFile.tla with the invariants evaluated after every event; TLC -simulate behaviours are "
+                "replayed as schedules on real child processes. Bounded model checking plus conformance, not a proof.",
+        "note": "Trusts TLC, the interposers in harness/modfile_child.py (os.stat, os.path.exists, os.open, os.write, os.close, os.rename/replace, "
+                "shutil.move, tempfile.mkstemp, builtins.open, os.unlink), os._exit as process death, the completeness test of a module "
+                "file (metadata trailer + compile). OS/power failure without fsync is outside the property.",
+        "design_ref": "DESIGN.md section 3, C15",
+        "technique": "TLA+ model checking (TLC) + crash-point enumeration on real processes + trace validation + schedule replay",
+    },
 }
 
 NOT_BUILT_REASON = "check not built yet (build in progress)"
